@@ -201,6 +201,11 @@ def cases(tier):
     for T, v in U.TAGS(tier):
         idx += 1
         yield idx, T, v
+    # containers holding several long-form tags of the same class and form (sibling elements)
+    for T, v in U.NEST(tier):
+        if U.contains(T, lambda t: t[0] == 'TAG' and t[3] >= 31) and T[0] != 'TAG':
+            idx += 1
+            yield idx, T, v
     # ANY under explicit tags
     for st in U.tag_stacks(2 if tier == 'quick' else 3, U.TAG_NUMS_SMALL, classes=('C', 'P')):
         if any(m == 'I' for m, _, _ in st[-1:]):
